@@ -775,6 +775,23 @@ func (c GeneratorContext) addLocalVar(name string) (GeneratorContext, error) {
 	return GeneratorContext{am: newAm, cm: c.cm}, nil
 }
 
+// reserve returns a context in which n additional, unnamed stack slots are
+// accounted for. It is used while compiling the arguments of a call: the
+// arguments (and the receiver of a method call) which are evaluated first are
+// already pushed to the stack when the following arguments are evaluated, so a
+// local variable declared inside such an argument lives behind them.
+func (c GeneratorContext) reserve(n int) GeneratorContext {
+	if n <= 0 {
+		return c
+	}
+	newAm := make(argsList, len(c.am), len(c.am)+n)
+	copy(newAm, c.am)
+	for i := 0; i < n; i++ {
+		newAm = append(newAm, "")
+	}
+	return GeneratorContext{am: newAm, cm: c.cm}
+}
+
 type Func[V any] func(Stack[V]) (V, error)
 
 func (f Func[V]) Eval(args ...V) (V, error) {
@@ -1132,7 +1149,7 @@ func (g *FunctionGenerator[V]) GenerateFunc(ast parser2.AST, gc GeneratorContext
 				if fun.argsNumberNotMatching(len(a.Args)) {
 					return nil, false, id.Error(fun.argsNumberNotMatchingError(id.Name, len(a.Args)))
 				}
-				argsFuncList, pure, err := g.genFuncList(a.Args, gc)
+				argsFuncList, pure, err := g.genArgList(a.Args, gc, 0)
 				if err != nil {
 					return nil, false, err
 				}
@@ -1152,7 +1169,7 @@ func (g *FunctionGenerator[V]) GenerateFunc(ast parser2.AST, gc GeneratorContext
 		if err != nil {
 			return nil, false, g.generateStaticFunctionDocu(err)
 		}
-		argsFuncList, aPure, err := g.genFuncList(a.Args, gc)
+		argsFuncList, aPure, err := g.genArgList(a.Args, gc, 0)
 		if err != nil {
 			return nil, false, err
 		}
@@ -1183,7 +1200,8 @@ func (g *FunctionGenerator[V]) GenerateFunc(ast parser2.AST, gc GeneratorContext
 			return nil, false, err
 		}
 		name := a.Name
-		argsFuncList, aPure, err := g.genFuncList(a.Args, gc)
+		// the receiver is pushed in front of the arguments
+		argsFuncList, aPure, err := g.genArgList(a.Args, gc, 1)
 		if err != nil {
 			return nil, false, err
 		}
@@ -1200,6 +1218,8 @@ func (g *FunctionGenerator[V]) GenerateFunc(ast parser2.AST, gc GeneratorContext
 						if theFunc.argsNumberNotMatching(len(argsFuncList)) {
 							return zero, a.Error(theFunc.argsNumberNotMatchingError(name, len(argsFuncList)))
 						}
+						// keep the stack layout the arguments are compiled for (receiver slot first)
+						st.Push(value)
 						for _, argFunc := range argsFuncList {
 							v, err := argFunc(st, cs)
 							if err != nil {
@@ -1287,6 +1307,25 @@ func (g *FunctionGenerator[V]) createClosureLiteralFunc(a *parser2.ClosureLitera
 		}
 		return closure, nil
 	}, pure, nil
+}
+
+// genArgList generates the code for the arguments of a call. The generated
+// functions expect that the results of the preceding arguments, and base
+// additional values in front of them, are pushed to the stack before they are
+// called.
+func (g *FunctionGenerator[V]) genArgList(a []parser2.AST, gc GeneratorContext, base int) ([]ParserFunc[V], bool, error) {
+	args := make([]ParserFunc[V], len(a))
+	pure := true
+	for i, arg := range a {
+		var err error
+		var p bool
+		args[i], p, err = g.GenerateFunc(arg, gc.reserve(base+i))
+		if err != nil {
+			return nil, false, err
+		}
+		pure = pure && p
+	}
+	return args, pure, nil
 }
 
 func (g *FunctionGenerator[V]) genFuncList(a []parser2.AST, gc GeneratorContext) ([]ParserFunc[V], bool, error) {
